@@ -7,6 +7,10 @@ import (
 )
 
 func main() {
+	if len(os.Args) > 1 && os.Args[1] == "-rt" {
+		server.VerifRealtimeRun(os.Stdout)
+		return
+	}
 	in := os.Stdin
 	if len(os.Args) > 1 {
 		f, err := os.Open(os.Args[1])
